@@ -54,7 +54,10 @@ def run(tape, scenario):
     from ebpfcat.ethercat import EtherCatError
 
     direction, cls = scenario.split("-")
-    env = Env(tape, faults=WireFaults(delay_buckets=(50e-6, 20e-6, 150e-6)))
+    # the master: a plain EtherCat (MailboxLock) or a ParallelEtherCat (mailbox counter kept
+    # in the shared lock file)
+    parallel = tape.chance("c16/parallel-master", 30)
+    env = Env(tape, faults=WireFaults(delay_buckets=(50e-6, 20e-6, 150e-6)), with_fs=parallel)
     world = env.world
     n_out = tape.pick("c16/mbx-out", SIZES)
     n_in = tape.pick("c16/mbx-in", SIZES)
@@ -76,8 +79,14 @@ def run(tape, scenario):
             return []
         term.adapter.before_answer = before
     from ebpfcat.ethercat import EtherCat
-    ec = EtherCat("sim0")
-    t = preinit(ec, term)
+    if parallel:
+        from ebpfcat.ebpfcat import ParallelEtherCat
+        ec = ParallelEtherCat("sim0")
+        ec.ethertype = 0x3001
+        env.bus.route_by_data0 = True
+    else:
+        ec = EtherCat("sim0")
+    t = None
 
     transfers = []
     violations = []
@@ -111,8 +120,27 @@ def run(tape, scenario):
                 "index": index, "sub": sub, "len": length, "value": value}
 
     async def main(loop):
-        await ec.connect()
+        nonlocal t
+        if parallel:
+            from ebpfcat.lock import LockFile
+            ec.mbx_lock_file = LockFile("/run/ebpf/sim0", *ec.terminal_addr_range)
+            await EtherCat.connect(ec)
+        else:
+            await ec.connect()
+        t = preinit(ec, term)
         for _ in range(ntr):
+            if tape.chance("c16/aborted-transfer-before", 15):
+                # a transfer the terminal aborts (no such object) ends with an exception
+                # inside the mailbox lock; the next transfer has to work all the same
+                try:
+                    await asyncio.wait_for(t.sdo_read(0x2e00, 1), 2.0)
+                    world.count("c16/abort-not-reported")
+                except EtherCatError:
+                    world.count("c16/aborted-transfer")
+                except asyncio.TimeoutError:
+                    viol("transfer-failed", "upload of a missing object: no answer within 2 s",
+                         exception="TimeoutError", dir="up", **{"class": "abort"}, access="sub")
+                    return
             tr = plan()
             transfers.append(tr)
             params = {"dir": tr["dir"], "class": tr["class"], "access": tr["access"]}
